@@ -825,6 +825,58 @@ def derive_atoms(atoms, s):
     return out
 
 
+def counted_loop_nodes(fn, node, min_trips=1):
+    """the XCFG nodes of the body of `for (v = 0; v < C; v++)` (C a constant >= min_trips; v assigned nowhere else) when
+    `node` is the branch node of its condition and no path of the body leaves the function; None otherwise.  On the
+    not-taken edge of such a condition the body has run at least min_trips times."""
+    t = node.info.get("term") if node.kind == "br" else None
+    c = ir.strip_casts(fn.resolve(t["c"])) if t and t.get("c") is not None else None
+    if not (isinstance(c, list) and c and c[0] == "b" and c[1] == "<"):
+        return None
+    v = ir.strip_casts(fn.resolve(c[2]))
+    bound = ir.peel(fn, c[3])
+    if not (isinstance(v, list) and v[0] == "v" and isinstance(bound, list) and bound[0] == "i" and isinstance(bound[1], int) and bound[1] >= min_trips):
+        return None
+    vi = v[1]
+    init0 = incs = other = 0
+    for el in fn.all_elements():
+        for sub in ir.walk(fn, el.e):
+            if sub[0] == "d" and sub[1] == vi:
+                r = ir.peel(fn, sub[2]) if sub[2] is not None else None
+                if isinstance(r, list) and r[:2] == ["i", 0]:
+                    init0 += 1
+                else:
+                    other += 1
+            elif sub[0] == "=" and ir.strip_casts(sub[1]) == ["v", vi]:
+                r = ir.peel(fn, sub[2])
+                if isinstance(r, list) and r[:2] == ["i", 0]:
+                    init0 += 1
+                else:
+                    other += 1
+            elif sub[0] == "u" and sub[1] in ("++", "p++") and ir.strip_casts(sub[2]) == ["v", vi]:
+                incs += 1
+            elif sub[0] == "o=" and ir.strip_casts(sub[2]) == ["v", vi]:
+                other += 1
+    if init0 != 1 or incs != 1 or other:
+        return None
+    body = []
+    seen = set()
+    work = [s2 for s2, lab in node.succ if lab == "T"]
+    while work:
+        x = work.pop()
+        if id(x) in seen or x is node:
+            continue
+        seen.add(id(x))
+        if x.kind in ("exit", "raise", "noret"):
+            return None
+        body.append(x)
+        for y, lab in x.succ:
+            work.append(y)
+        if len(seen) > 400:
+            return None
+    return body
+
+
 def flag_implication(prog, fn, e, s):
     """("imp", key of a local integer flag, atoms | None) established by `flag = <constant>` / `flag = <pure condition>`:
     when the flag is later found truthy, everything in force at this assignment (and the condition's own parts) held;
